@@ -53,4 +53,66 @@ def firstOnly : List Bool → List Bool
   | true :: r => true :: r.map fun _ => false
   | false :: r => false :: firstOnly r
 
+/-! ### Histories, and calls that overlap a running `UpdateTime`
+
+`UpdateTime` and `Reset` hold the timers' mutex from the first to the last statement, the handlers run
+with the mutex held.  A `Reset` (new-epoch notification) or a second `UpdateTime` (next header) issued by
+another goroutine WHILE a handler runs therefore waits until the running `UpdateTime` has marked
+everything it fired as done and returned: it takes effect right after it.  An event of a history is
+either an atomic call, or an `UpdateTime` during which handler `site` — when it runs — triggers such an
+overlapped call. -/
+
+inductive Atom where
+  | upd (t : Nat)
+  | rst (lastTick dur : Nat)
+  deriving Repr, DecidableEq
+
+/-- the handler from inside which the overlapped call is issued -/
+inductive Site where
+  | epoch            -- one of the new-epoch handlers
+  | delta (i : Nat)  -- sub-epoch handler `i`
+  deriving Repr, DecidableEq
+
+inductive Ev where
+  | atom (a : Atom)
+  | overlapped (t : Nat) (site : Site) (call : Atom)
+  deriving Repr, DecidableEq
+
+/-- one atomic call: new state, new-epoch handlers fired, which sub-epoch handlers fired -/
+def stepAtom (et : ET) : Atom → ET × Bool × List Bool
+  | .upd t => update et t
+  | .rst lt dur => (reset et lt dur, false, et.dhs.map fun _ => false)
+
+/-- per atomic call: (epoch fired, delta fired list) -/
+def runAtoms : ET → List Atom → List (Bool × List Bool)
+  | _, [] => []
+  | et, a :: as => let r := stepAtom et a; (r.2.1, r.2.2) :: runAtoms r.1 as
+
+def afterAtoms : ET → List Atom → ET
+  | et, [] => et
+  | et, a :: as => afterAtoms (stepAtom et a).1 as
+
+def siteFired (s : Site) (fe : Bool) (fd : List Bool) : Bool :=
+  match s with
+  | .epoch => fe
+  | .delta i => fd.getD i false
+
+/-- the atomic calls an event amounts to when it starts in state `et`: the overlapped call exists only
+if its handler runs in this `UpdateTime`, and it is linearised right after the `UpdateTime` it overlaps. -/
+def Ev.atoms (et : ET) : Ev → List Atom
+  | .atom a => [a]
+  | .overlapped t site call =>
+    let r := update et t
+    if siteFired site r.2.1 r.2.2 then [.upd t, call] else [.upd t]
+
+/-- linearisation of a history with overlapped calls -/
+def lin : ET → List Ev → List Atom
+  | _, [] => []
+  | et, e :: es => e.atoms et ++ lin (afterAtoms et (e.atoms et)) es
+
+/-- what the handlers' counters show, event by event (the outputs of the event's atomic calls) -/
+def runEvs : ET → List Ev → List (Bool × List Bool)
+  | _, [] => []
+  | et, e :: es => runAtoms et (e.atoms et) ++ runEvs (afterAtoms et (e.atoms et)) es
+
 end NeoFS.Timers
